@@ -1149,9 +1149,21 @@ class PadFam(Family):
     def corpus(self):
         b = {"fam": "pad", "nsp": 1, "axes": None, "mode": None, "cv": None, "pads_dyn": False, "autopad": "NOTSET", "cpads": None,
              "shape_known": True, "strides": 1, "dil": 1, "extra": False}
-        return [dict(b, integer=True, pads=[0, 0, 1, 0, 0, 1], zp=5),      # D16a witness
-                dict(b, integer=False, pads=[0, 0, 1, 0, 0, 2], zp=None, cpads=[1, 0]),
-                dict(b, integer=True, pads=[0, 0, 1, 0, 0, 1], zp=0)]
+        out = [dict(b, integer=True, pads=[0, 0, 1, 0, 0, 1], zp=5),      # D16a witness
+               dict(b, integer=False, pads=[0, 0, 1, 0, 0, 2], zp=None, cpads=[1, 0]),
+               dict(b, integer=True, pads=[0, 0, 1, 0, 0, 1], zp=0)]
+        # directed near-misses: an otherwise fusable host that violates exactly one guard of `check` (both Conv and ConvInteger),
+        # so that every guard is exercised in every run whatever the seed
+        good = dict(b, pads=[0, 0, 1, 0, 0, 2], zp=None, opset=18)
+        for integer in (False, True):
+            g = dict(good, integer=integer)
+            out += [dict(g), dict(g, autopad="VALID"), dict(g, autopad="SAME_UPPER"), dict(g, autopad="SAME_LOWER"), dict(g, autopad=None),
+                    dict(g, mode="reflect"), dict(g, mode="edge"), dict(g, mode="constant"), dict(g, mode="wrap", opset=19),
+                    dict(g, cv=1), dict(g, cv=0), dict(g, cv="dyn"), dict(g, pads=[0, 0, -1, 0, 0, 2]), dict(g, pads=[0, 1, 1, 0, 0, 2]),
+                    dict(g, pads=[1, 0, 1, 0, 0, 2]), dict(g, pads=[0, 0, 1, 0, 1, 2]), dict(g, pads_dyn=True), dict(g, shape_known=False),
+                    dict(g, pads=[1, 2], axes=[2]), dict(g, pads=[1, 2], axes=[-1]), dict(g, cpads=[1, 1]), dict(g, extra=True)]
+        out += [dict(good, integer=True, zp=0), dict(good, integer=True, zp=5), dict(good, integer=True, zp="dyn")]
+        return out
 
     def build(self, c):
         C = rules_common()
@@ -1491,7 +1503,7 @@ class ExpandBinFam(Family):
         if q < 0.1:
             e = [1] + e
         symx = rng.random() < 0.1
-        return {"fam": "expandbin", "op": op, "second": rng.random() < 0.5, "x": x, "y": y, "e": e, "symx": symx,
+        return {"fam": "expandbin", "op": op, "second": rng.random() < 0.5, "x": x, "y": y, "e": e, "symx": symx or rng.random() < 0.2,
                 "fmod": op == "Mod" and rng.random() < 0.5, "extra": rng.random() < 0.1,
                 # strategy 2 (Expand output annotated) / 3 (binary-op output annotated) with a run-time shape operand
                 "dyn": rng.choice([0, 0, 0, 2, 3])}
@@ -1517,8 +1529,7 @@ class ExpandBinFam(Family):
         gx = None
         if op in ("Div", "Mod", "Pow"):
             gx = lambda r, s=tuple(c["y" if not c["second"] else "x"]): None
-        declx = (["N"] + c["x"][1:]) if (c["symx"] and c["x"] and c["x"][0] != 1) else c["x"]
-        hst.inp("x", dt, c["x"], decl_shape=declx)
+        hst.inp("x", dt, c["x"], decl_shape=self.declx(c))
         ygen = None
         if op in ("Div", "Mod"):
             ygen = lambda r, s=tuple(c["y"]): r.choice(np.array([-3, -2, 2, 3, 5]), size=s).astype(dt)
@@ -1528,14 +1539,11 @@ class ExpandBinFam(Family):
         dyn = c.get("dyn", 0)
         hst.const("s", np.array(c["e"], dtype=np.int64), "input" if dyn else "init")
         hst.node("Expand", ["x", "s"], ["t"])
-        if dyn:
-            tshape = list(np.broadcast_shapes(tuple(c["x"]), tuple(c["e"])))
-            oshape = list(np.broadcast_shapes(tuple(tshape), tuple(c["y"])))
-            if dyn == 2:
-                hst.annotate("t", dt, tshape)
-            self._oshape = oshape if dyn == 3 else None
-        else:
-            self._oshape = None
+        ann = self.annotations(c)
+        if ann["eo"] is not None and not c["extra"]:
+            hst.annotate("t", dt, ann["eo"])
+        self._oshape = ann["bo"]
+        self._eo = ann["eo"]
         attrs = {}
         if op == "BitShift":
             attrs["direction"] = "LEFT"
@@ -1547,19 +1555,41 @@ class ExpandBinFam(Family):
         odt = "bool" if op in ("Equal", "Greater", "GreaterOrEqual", "Less", "LessOrEqual", "And", "Or", "Xor") else dt
         hst.out("y", odt, self._oshape)
         if c["extra"]:
-            hst.out("t", dt, None)
+            hst.out("t", dt, self._eo)       # as a graph output the Expand result carries its annotation there
         return hst, C.expand_before_binary_op_rules
 
     def infer(self, c):
         return False
 
+    def declx(self, c):
+        return (["N"] + c["x"][1:]) if (c["symx"] and c["x"] and c["x"][0] != 1) else c["x"]
+
+    def annotations(self, c):
+        """declared (truthful) annotations of the Expand output (strategy 2) / binary-op output (strategy 3); where x's leading
+        dim is the symbol N and survives unexpanded, the annotation names it N as shape inference would."""
+        dyn = c.get("dyn", 0)
+        out = {"eo": None, "bo": None}
+        if not dyn:
+            return out
+        tshape = list(np.broadcast_shapes(tuple(c["x"]), tuple(c["e"])))
+        oshape = list(np.broadcast_shapes(tuple(tshape), tuple(c["y"])))
+        symbolic = self.declx(c) != c["x"]
+        def sym(shape):
+            k = len(shape) - len(c["x"])
+            if symbolic and k >= 0 and shape[k] == c["x"][0]:
+                return shape[:k] + ["N"] + shape[k + 1:]
+            return shape
+        if dyn == 2:
+            out["eo"] = sym(tshape)
+        else:
+            out["bo"] = sym(oshape)
+        return out
+
     def line(self, c):
-        if c.get("dyn", 0) and not (c["op"] == "PRelu" and not c["second"]):
-            return None     # strategies 2/3 are not in the Lean model (shared with C09): numeric judgement only
-        declx = (["N"] + c["x"][1:]) if (c["symx"] and c["x"] and c["x"][0] != 1) else c["x"]
-        attrs = c["op"] == "BitShift" or (c["op"] == "Mod" and c["fmod"])
-        return (f"expandbin x={shape_tok(declx)} y={shape_tok(c['y'])} e={ints(c['e'])} attrs={int(attrs)} xr={ints(c['x'])} "
-                f"prelu1={int(c['op'] == 'PRelu' and not c['second'])}")
+        ann = self.annotations(c)
+        e = ints(c["e"]) if not c.get("dyn", 0) else "-"
+        return (f"expandbin op={c['op']} second={int(c['second'])} x={shape_tok(self.declx(c))} y={shape_tok(c['y'])} e={e} "
+                f"eo={shape_tok(ann['eo'])} bo={shape_tok(ann['bo'])}")
 
     def observe(self, c, after):
         return "fire"
@@ -1579,10 +1609,11 @@ class MiscFam(Family):
     no_model = True
     exact = False
     # the other kinds built below now have their own modelled families in c05_families2.py
-    KINDS = ["layernorm", "rotary1", "rotary2", "gqa"]
+    KINDS = ["layernorm", "rotary1", "rotary2", "gqa", "rotaryP", "rotaryPmis"]
+    FUSION_KINDS = ("rotary1", "rotary2", "gqa", "rotaryP", "rotaryPmis")
 
     def prefer_for(self, c):
-        return "ref" if c["kind"] in ("rotary1", "rotary2", "gqa") else "ort"
+        return "ref" if c["kind"] in self.FUSION_KINDS else "ort"
     rule_keys_extra = ("fusion._rotary_embedding.", "fusion._gqa.")
     rule_keys = ("cast_constant_of_shape_rule", "cast_constant_of_shape_without_value_rule", "two_reshapes_matmul_reshape_rule",
                  "one_reshape_matmul_reshape_rule", "gemm_to_matmul_add_rule", "slice_split_rule", "fuse_hardswish_rules",
@@ -1599,7 +1630,7 @@ class MiscFam(Family):
         import onnx
         C = rules_common()
         k, v, near = c["kind"], c["v"], c["near"]
-        if k in ("rotary1", "rotary2", "gqa"):
+        if k in self.FUSION_KINDS:
             return self.build_fusion_host(k)
         hst = Host()
         i64 = np.int64
@@ -1749,6 +1780,20 @@ class MiscFam(Family):
             return ProtoHost(proto, feeds), _gqa.gqa_rules
         from onnxscript.rewriter.models import _rotary_embedding_models as RM
         from onnxscript.rewriter.rules.fusion import _rotary_embedding as RE
+        if k in ("rotaryP", "rotaryPmis"):
+            # partial rotary embedding: the repo's script (matching / mismatched slice boundaries), optimized, base rotary
+            # fusion applied first (as `fuse_partial_rotary_embedding` expects); the rule under test is the partial one
+            fn = RM._make_partial_rotary_script(mismatched=(k == "rotaryPmis"))
+            mp = fn.to_model_proto(input_types=(onnxscript.INT64["Batchsize", "Sequence"], onnxscript.FLOAT["Batchsize", 32, "Sequence", 80]),
+                                   output_types=(onnxscript.FLOAT["Batchsize", 32, "Sequence", 80],))
+            m = ir.serde.deserialize_model(mp)
+            m.graph.opset_imports[""] = 23
+            onnxscript.optimizer.optimize(m)
+            RE.fuse_rotary_embedding(m)
+            proto = ir.serde.serialize_model(m)
+            def feeds(r):
+                return {"query": r.rand(1, 32, 8, 80).astype(np.float32), "position_ids": np.arange(8, dtype=np.int64).reshape(1, 8)}
+            return ProtoHost(proto, feeds), RE.partial_embedding_rules
         t = (RM.test_case_1 if k == "rotary1" else RM.test_case_2)()
         m = t.get_onnx_model()
         m.graph.opset_imports[""] = 23
